@@ -851,6 +851,8 @@ class Engine:
         r = self.th.rec_attr(self, st, base, o, attr)
         if r is not None:
           return r
+        if attr == "__class__":
+          return Opaque("type(self)")      # the run-time class (a subclass of the static one): unknown
         raise Unsupported(f"attribute {o.cls}.{attr}")
       return FuncV("builtin_method", attr, selfv=base)
     if isinstance(base, Opt):
@@ -877,6 +879,8 @@ class Engine:
         return FuncV("repo", q, node=base.module.funcs[q], module=base.module)
       raise Unsupported(f"class attribute {base.name}.{attr}")
     if isinstance(base, Opaque):
+      if base.why == "type(self)" and attr == "__name__":
+        return StrV(z3.Const(V.fresh_name("class_name"), V.StrSort))     # arbitrary string
       return FuncV("builtin_method", attr, selfv=base)
     if isinstance(base, self.th.EnumV):
       if attr in base.members:
@@ -1949,6 +1953,14 @@ class Engine:
             by = (vals[0], vals[1:], list(theory), vals[0], vals[1:])
         else:
           g = self.truthy(st, self.ev(cl.node, st))
+      except Unsupported as e:
+        if label.endswith("/return") and str(e).startswith("unknown name"):
+          # a return hint that mentions a local which does not exist on THIS return path (e.g. a new early return):
+          # the hint is skipped there - the postconditions of that path are still checked, from fewer facts
+          self.abstracted.add(f"return hint skipped on a path where a local it mentions is undefined: {cl.text[:80]}")
+          by = None
+          continue
+        raise
       finally:
         st.spec_depth -= 1
         st.frames.pop()
